@@ -431,6 +431,12 @@ class SEnum:
         i = Ctx.cur.concretize_int(self.t, 0, len(self.values) - 1)
         return self.values[i]
 
+    def lower(self):
+        return SEnum(self.t, [v.lower() if isinstance(v, str) else v for v in self.values])
+
+    def upper(self):
+        return SEnum(self.t, [v.upper() if isinstance(v, str) else v for v in self.values])
+
     def __hash__(self):
         return hash(self.concretize())
 
